@@ -1264,6 +1264,15 @@ func (r *runningStep) startStage(container deployer.Plugin) (bool, int64, error)
 		}
 	}
 
+	// The step may have been stopped (stop_if) or closed before it received its input.
+	// In that case it must not start executing.
+	select {
+	case <-r.ctx.Done():
+		r.logger.Debugf("step closed before starting")
+		return true, 0, nil
+	default:
+	}
+
 	inputSchema, err := r.atpClient.ReadSchema()
 	if err != nil {
 		return false, 0, err
